@@ -46,6 +46,18 @@ class Hist:
         st = Step('build', line, g=snap, sources=dict(s.sources), targets=list(targets or []), opts=kw)
         s.add(st); return st
 
+def replay_text(h):
+    """scenario text + the generator's ground truth (pickled Hist) so that a replay re-applies the same oracles"""
+    import pickle, base64
+    return h.text() + '# hist-pickle ' + base64.b64encode(pickle.dumps(h)).decode() + '\n'
+
+def load_replay(path):
+    import pickle, base64
+    hs = []
+    for l in open(path, errors='replace'):
+        if l.startswith('# hist-pickle '): hs.append(pickle.loads(base64.b64decode(l.split()[2])))
+    return hs
+
 def default_targets(g):
     if g.defaults: return list(g.defaults)
     used = set()
